@@ -276,6 +276,7 @@ func (c *client) SendBatch(ctx context.Context, batch []hrpc.Call) (
 	var unretryableErrorSeen bool
 	var retries []hrpc.Call
 	backoff := backoffStart
+	serverErrorCount := 0
 
 	for {
 		// findClients reports an error at the position the call has in
@@ -331,6 +332,18 @@ func (c *client) SendBatch(ctx context.Context, batch []hrpc.Call) (
 		// retries is empty), or the context is done.
 		if len(retries) == 0 || ctx.Err() != nil {
 			break
+		}
+		// Like SendRPC, retry connection-level errors immediately so that
+		// we fail over fast, but start to back off if they keep coming:
+		// we don't want to overwhelm HBase with a hot retry loop.
+		for _, rpc := range retries {
+			if _, ok := res[rpcToRes[rpc]].Error.(region.ServerError); ok {
+				if serverErrorCount > 1 {
+					needBackoff = true
+				}
+				serverErrorCount++
+				break
+			}
 		}
 		if needBackoff {
 			sp.AddEvent("retrySleep")
